@@ -58,16 +58,21 @@ def oracle(data, sw, ch, n, uc, thr):
     return "ValueError", [], []
 
 
-def harness(L, sw, ch, n, uc, typed=False):
+def harness(L, sw, ch, n, uc, typed=False, sparse=False):
+    """sparse: a long window whose first, middle and last samples are symbolic and all others digital silence"""
     util = L.modules["util"]
 
     def path(e):
         shim = npshim.Shim()
         npshim.install(L, shim)
         raw = [z3.BitVec("b%d" % i, 8) for i in range(sw * ch * n)]
+        if sparse:
+            keep = {0, n // 2, n - 1}
+            zero = z3.BitVecVal(0, 8)
+            raw = [b if (i // (sw * ch)) in keep else zero for i, b in enumerate(raw)]
         data = TypedWindow(raw, sw) if typed else Window(raw)
         thr, thr2 = z3.Real("thr"), z3.Real("thr2")
-        meta = dict(kind="energy", sw=sw, ch=ch, n=n, uc=uc, typed=typed)
+        meta = dict(kind="energy", sw=sw, ch=ch, n=n, uc=uc, typed=typed, sparse=sparse)
         want, sq_args, log_args = oracle(raw, sw, ch, n, uc, thr)
         # a shorter window (the partial last block of a stream) judged by the same, already used validator
         short_raw = raw[:sw * ch * (n - 1)] if n >= 2 else None
@@ -214,6 +219,10 @@ def now(e, why, meta):
 def mk(m, data, meta):
     c = dict(meta)
     c["bytes"] = [m.eval(b, model_completion=True).as_long() for b in data]
+    if len(c["bytes"]) > 64:
+        c["bytes_sparse"] = {str(i): v for i, v in enumerate(c["bytes"]) if v}
+        c["nbytes"] = len(c["bytes"])
+        c["bytes"] = None
     t = m.eval(z3.Real("thr"), model_completion=True)
     try:
         c["thr"] = float(t.as_fraction())
@@ -274,6 +283,11 @@ def replay_fn(c, light=False):
         cands = []
         if c.get("bytes") is not None:
             cands.append(bytes(c["bytes"]))
+        if c.get("bytes_sparse") is not None:
+            bb = bytearray(c["nbytes"])
+            for i, v in c["bytes_sparse"].items():
+                bb[int(i)] = v
+            cands.append(bytes(bb))
         import random
         rnd = random.Random(1)
         ext = {1: [0, 1, 127, 128, 255], 2: [0, 1, 255, 127, 128], 4: [0, 1, 255, 127, 128]}[sw]
@@ -388,7 +402,8 @@ def run(rep):
                        "one z3 query (QF_UFLRA + BV2Int) per configuration proves decision == statement, plus monotonicity in the threshold.")
     rep.assumptions = ["sqrt, log10 and squaring are uninterpreted functions with the axioms listed in DESIGN §5 C07 instantiated on recorded terms",
                        "numpy's float64 rounding is outside the claim (energies within ~1e-12 dB of the threshold)"]
-    rep.outside = ["windows longer than %d samples per channel (the code is data-oblivious: no branch on sample values)" % max(b["samples"]),
+    rep.bounds["long windows"] = "5000 (9000) samples per channel with the first, middle and last sample symbolic and digital silence elsewhere"
+    rep.outside = ["windows longer than %d samples per channel with every byte symbolic (the code is data-oblivious: no branch on sample values)" % max(b["samples"]),
                    "inexact squares of 32-bit samples above 2^53", "the optional signal_numpy module (absent in this tree)"]
     tot = {"ok": 0}
     npshim_ok = npshim.validate_against_numpy(L, trials=100 if tier == "quick" else 1000)
@@ -416,6 +431,22 @@ def run(rep):
         a.wall_s += ex.wall_s
         a.entered |= ex.entered
         a.exhausted = a.exhausted and ex.exhausted
+    # long windows (an analysis window of half a second at 10 kHz): three symbolic samples, the rest digital silence
+    a = agg.setdefault("energy[long windows]", Exploration())
+    for sw, ch, n, uc in ((1, 1, 5000, None), (2, 2, 5000, "mix")) if tier == "quick" else ((1, 1, 5000, None), (2, 2, 5000, "mix"), (2, 2, 5000, None), (4, 1, 9000, None), (2, 3, 5000, -1)):
+        ex = explore(harness(L, sw, ch, n, uc, sparse=True), workers=1, timeout_ms=120000, path_wall_s=300)
+        for r in ex.results:
+            if r["status"] == "unsupported":
+                r["status"] = "cex"
+                r["failing"] = ["unsupported by the shim: %s" % r.get("why")]
+                r["cex"] = dict(kind="energy", sw=sw, ch=ch, n=n, uc=uc, bytes=None, thr=None)
+                rep.notes.append("long-window config (sw=%d, ch=%d, n=%d, use_channel=%r) left the numpy shim (%s); probed concretely" % (sw, ch, n, uc, r.get("why")))
+        a.results += [dict(r, config=[sw, ch, n, repr(uc), "long"]) for r in ex.results]
+        a.stats.update(ex.stats)
+        a.solver_s += ex.solver_s
+        a.paths += ex.paths
+        a.wall_s += ex.wall_s
+        a.entered |= ex.entered
     # the same windows handed over as typed arrays (array.array('h'/'i')): len() and slicing then count items, not bytes
     a = agg.setdefault("energy[typed buffers]", Exploration())
     for sw in (2, 4):
